@@ -49,7 +49,9 @@ RULE = ("(template, identifier) pairs: templates from a grammar prefix+go+betwee
         "lower/UPPER/Title/mixed casing, ASCII, unicode (incl. runes whose upper-casing changes the UTF-8 length) and "
         "invalid-byte prefixes/separators/suffixes, plus missing / reordered / repeated / look-alike words and random "
         "byte strings, and a config stream (template -> config.NewConfig -> FileNamingFormat: empty, blank and near-blank templates, "
-        "templates wrapped in white space of 13 kinds); identifiers: snake, camel, Pascal, acronyms, repeated/leading/trailing underscores, digit words, "
+        "templates wrapped in white space of 13 kinds), and for 30% of the cases a history of 3-10 configuration operations in the same "
+        "process (NewConfig of the default / explicit / blank styles, owner assignments to cfg.NamingFormat, reads, formatting "
+        "with a kept configuration, unknown handles); identifiers: snake, camel, Pascal, acronyms, repeated/leading/trailing underscores, digit words, "
         "punctuation and spaces, a fixed set of non-ASCII runes, invalid UTF-8, empty; a third of the cases use an "
         "identifier of the round-trip grammar. non-trivial = accepted template with a non-empty identifier, or a "
         "rejected template that contains both words, or a round-trip identifier with >= 2 words; distinct = distinct "
@@ -275,8 +277,65 @@ def gen_template_core(rng, r):
     return bytes(rng.randrange(256) for _ in range(rng.randint(0, 14))), "random"
 
 
-def mk(t, c, tk, ck):
-    return {"t": b(t).hex(), "c": b(c).hex(), "tk": tk, "ck": ck}
+def mk(t, c, tk, ck, h=None):
+    d = {"t": b(t).hex(), "c": b(c).hex(), "tk": tk, "ck": ck}
+    if h:
+        d["h"] = h
+    return d
+
+
+# ---- histories of configurations (config.NewConfig calls with owner assignments in between)
+def h_new(s):
+    return {"op": "new", "s": b(s).hex()}
+
+
+def h_set(i, s):
+    return {"op": "set", "i": i, "s": b(s).hex()}
+
+
+def h_read(i):
+    return {"op": "read", "i": i}
+
+
+def h_fmt(i, c):
+    return {"op": "fmt", "i": i, "s": b(c).hex()}
+
+
+H_STYLES = ["", "", "go_designer", "goDesigner", "GO#DESIGNER", "Go-Designer.go", "godesigner", " ", "\t", "\u3000",
+            " go_designer", "gO_designer", "designer_go", "x"]
+H_IDENTS = ["userCenter", "user_center", "HTTPServer", "a", "", "_x__y"]
+
+
+def gen_history(rng, t, c):
+    pool = H_STYLES + [t]
+    k = rng.random()
+    if k < 0.3:       # the default twice, the owner writing over the first in between (a yaml load)
+        v = rng.choice([x for x in pool if x != ""] + ["GO_DESIGNER"])
+        ops = [h_new(""), h_set(0, v), h_new(""), h_read(1), h_fmt(1, rng.choice(H_IDENTS + [c])), h_read(0),
+               h_fmt(0, rng.choice(H_IDENTS))]
+        if rng.random() < 0.5:
+            ops.insert(1, h_read(0))
+        return ops
+    if k < 0.55:      # the same explicit style twice
+        s1 = rng.choice([x for x in pool if x != ""])
+        v = rng.choice(pool + ["Go_Designer"])
+        return [h_new(s1), h_fmt(0, rng.choice(H_IDENTS)), h_set(0, v), h_new(s1), h_read(1), h_fmt(1, rng.choice(H_IDENTS + [c])),
+                h_new(""), h_read(2), h_read(0)]
+    ops, n = [], 0
+    for _ in range(rng.randint(3, 9)):
+        r = rng.random()
+        if n == 0 or r < 0.35:
+            ops.append(h_new(rng.choice(pool)))
+            n += 1
+        elif r < 0.55:
+            ops.append(h_set(rng.randrange(n), rng.choice(pool + ["Go_Designer", "tmp"])))
+        elif r < 0.8:
+            ops.append(h_read(rng.randrange(n)))
+        elif r < 0.97:
+            ops.append(h_fmt(rng.randrange(n), rng.choice(H_IDENTS + [c])))
+        else:
+            ops.append(rng.choice([h_read(n + rng.randint(0, 2)), h_set(n, "x"), h_fmt(n + 1, "x")]))   # no such handle
+    return ops
 
 
 def fixed_cases():
@@ -300,7 +359,8 @@ def generate(rng, tier, n):
     while len(cases) < n:
         t, tk = gen_template(rng)
         c, ck = gen_content(rng)
-        cases.append(mk(t, c, tk, ck))
+        h = gen_history(rng, t, c) if rng.random() < 0.3 else None
+        cases.append(mk(t, c, tk, ck, h))
     return cases
 
 
@@ -351,24 +411,74 @@ def drive(cases, tier):
         shutil.copy(gosum, os.path.join(MOD_DIR, "go.sum"))
     except OSError as ex:
         return None, "scratch module setup failed: %r" % ex
-    name = "C20" if tier != "search" else "C20s"
+    env = dict(vlib.GOENV)
+    rc, out = vlib.sh(["go", "build", "-o", DRV_BIN, "."], cwd=MOD_DIR, env=env, timeout=DRIVER_TIMEOUT)
+    log.append(out)
+    if rc != 0:
+        return None, "driver build rc=%s\n%s" % (rc, "\n".join(log)[-6000:])
+    global _LAST_CASES
+    if tier != "search":
+        _LAST_CASES = list(cases)
+    else:
+        _LAST_CASES = _LAST_CASES + list(cases)
+    obs, out = run_binary(cases, "C20" if tier != "search" else "C20s")
+    log.append(out)
+    if obs is None:
+        return None, "\n".join(log)[-6000:]
+    return obs, "\n".join(log)
+
+
+DRV_BIN = os.path.join(MOD_DIR, "c20drv.bin")
+_LAST_CASES = []
+
+
+def run_binary(cases, name):
+    """one fresh process of the built driver over `cases` (the whole list shares the process)"""
     inp = os.path.join(vlib.WORK, "%s.in.jsonl" % name)
     outp = os.path.join(vlib.WORK, "%s.out.jsonl" % name)
     with open(inp, "w") as f:
         for c in cases:
-            f.write(json.dumps({"t": c["t"], "c": c["c"]}, separators=(",", ":")) + "\n")
+            f.write(json.dumps({"t": c["t"], "c": c["c"], "h": c.get("h", [])}, separators=(",", ":")) + "\n")
     if os.path.exists(outp):
         os.remove(outp)
     env = dict(vlib.GOENV)
     env.update({"VERIF_IN": inp, "VERIF_OUT": outp})
-    rc, out = vlib.sh(["go", "run", "."], cwd=MOD_DIR, env=env, timeout=DRIVER_TIMEOUT)
-    log.append(out)
+    rc, out = vlib.sh([DRV_BIN], cwd=MOD_DIR, env=env, timeout=DRIVER_TIMEOUT)
     obs = None
     if os.path.exists(outp):
         obs = [json.loads(l) for l in open(outp) if l.strip()]
-    if rc != 0 or obs is None or len(obs) != len(cases) or any("error" in o for o in obs):
-        return None, "driver rc=%s obs=%s/%s\n%s" % (rc, None if obs is None else len(obs), len(cases), "\n".join(log)[-6000:])
-    return obs, "\n".join(log)
+    if rc != 0 or obs is None or len(obs) != len(cases) or any("error" in o or any("error" in x for x in o.get("hobs", [])) for o in obs):
+        return None, "driver rc=%s obs=%s/%s\n%s" % (rc, None if obs is None else len(obs), len(cases), out[-6000:])
+    return obs, out
+
+
+def shrink(v):
+    """All cases of a run share one driver process, so a case can fail only because an EARLIER case's
+    history left state behind (a cached / aliased configuration). The replay must fail on its own:
+    re-run the chosen case alone in a fresh process; if it no longer fails, look for the smallest
+    case of the run that does fail alone (each candidate in its own process, spec_ok decided by Coq)."""
+    if not os.path.exists(DRV_BIN):
+        return v
+
+    def failing(pairs):
+        terms = [encode(c, o) for c, o in pairs]
+        r = vlib.coq_eval(ID, "C20.Exec", terms, shard=SHARD, checks=("spec_ok",), tag="k")
+        return set(r["spec_ok"])
+
+    o, _ = run_binary([v["case"]], "C20k")
+    if o is not None and 0 in failing([(v["case"], o[0])]):
+        return {"case": v["case"], "obs": o[0]}
+    cands = sorted([c for c in _LAST_CASES if c.get("h")], key=lambda c: len(vlib.canon(c)))[:60]
+    pairs = []
+    for c in cands:
+        o, _ = run_binary([c], "C20k")
+        if o is not None:
+            pairs.append((c, o[0]))
+    bad = failing(pairs) if pairs else set()
+    if bad:
+        c, o = pairs[min(bad)]
+        return {"case": c, "obs": o}
+    return v
 
 
 # ------------------------------------------------------------------------------------------ encoder
@@ -388,10 +498,20 @@ def encode(case, obs):
     runes = [cpair(cN(r[0]), "(mkRI %s %s %s %s %s %s %s)" % (cN(r[1]), cN(r[2]), cN(r[3]), cbool(r[4]), cbool(r[5]), cbool(r[6]), cbool(r[7])))
              for r in obs["runes"]]
     xt = [cpair(cstrb(a), cstrb(b_)) for a, b_ in obs["xt"]]
-    return "mkcase %s %s %s %s %s %s %s %s %s %s %s %s" % (
+    hops = []
+    for o in case.get("h", []):
+        if o["op"] == "new":
+            hops.append("XNew %s" % cstrb(o["s"]))
+        elif o["op"] == "set":
+            hops.append("XSet %s %s" % (cnat(o["i"]), cstrb(o["s"])))
+        elif o["op"] == "read":
+            hops.append("XRead %s" % cnat(o["i"]))
+        else:
+            hops.append("XFmt %s %s" % (cnat(o["i"]), cstrb(o["s"])))
+    return "mkcase %s %s %s %s %s %s %s %s %s %s %s %s %s %s" % (
         cstrb(case["t"]), cstrb(case["c"]), clist(runes), clist(xt),
         cobs(obs["fmt"]), cobs(obs["fmt2"]), cobs(obs["camel"]), cobs(obs["snake"]), cobs(obs["rt"]), cobs(obs["untitle"]),
-        cobs(obs["cfg"]), cobs(obs["cfgfmt"]))
+        cobs(obs["cfg"]), cobs(obs["cfgfmt"]), clist(hops), clist([cobs(x) for x in obs["hobs"]]))
 
 
 def nontrivial(case, obs):
@@ -400,6 +520,8 @@ def nontrivial(case, obs):
         return True
     t = bytes.fromhex(case["t"]).lower()
     if "err" in f and b"go" in t and b"designer" in t:
+        return True
+    if len(case.get("h", [])) >= 3:
         return True
     if case["tk"].startswith(("cfg", "corpus-cfg")) and ("err" in obs["cfg"] or "ok" in obs["cfgfmt"]):
         return True
@@ -412,6 +534,10 @@ def bucket(case, obs):
            "fmt:" + ("ok" if "ok" in f else "err%d" % f["err"] if "err" in f else "PANIC")]
     if any("panic" in obs[k] for k in ("camel", "snake", "rt")):
         out.append("conv:PANIC")
+    if case.get("h"):
+        out.append("history:%d-configs" % min(3, sum(1 for o in case["h"] if o["op"] == "new")))
+        if any("panic" in x for x in obs["hobs"]):
+            out.append("history:PANIC")
     if obs["xt"]:
         out.append("oracle:xtext-word")
     if len(obs["runes"]) > 1:
@@ -446,6 +572,13 @@ def explain(case, obs):
         what.append("through config.NewConfig the same template gives %s (cfg.NamingFormat: %s) -- the template must reach "
                     "FileNamingFormat verbatim, only the empty one is the default (c20_config_transparent)"
                     % (show(obs["cfgfmt"]), show(obs["cfg"])))
+    if case.get("h"):
+        hs = []
+        for o, x in zip(case["h"], obs["hobs"]):
+            arg = bytes.fromhex(o["s"]) if "s" in o else None
+            hs.append("%s(%s) -> %s" % (o["op"], ", ".join(([str(o["i"])] if "i" in o and o["op"] != "new" else []) + ([repr(arg)] if arg is not None else [])), show(x)))
+        what.append("configuration history in the same process, after this case's own NewConfig(%r) [" % t + "; ".join(hs) + "]: every NewConfig result must be a function of "
+                    "its own argument and a configuration must hold only what was assigned to it (c20_config_history / c20_config_no_alias)")
     if not what:
         what.append("the observed results contradict C20.Exec.spec_ok: FileNamingFormat's result is not the Spec's "
                     "rendering prefix ++ join between (style_go w1 :: map style_designer ws) ++ suffix (c20_render), or a "
